@@ -54,7 +54,7 @@ def handler_specs(draw, i):
          'subresource': draw(st.sampled_from([None, None, '*', 'status', 'scale'])),
          'labels': draw(st.sampled_from([None, None, {'l': 'a'}, {'l': '@present'}, {'l': '@absent'}])),
          'when': draw(st.sampled_from([None, None, '@cb:true', '@cb:false'])),
-         'field': draw(st.sampled_from([None, None, None, 'present', 'is1'])),
+         'field': draw(st.sampled_from([None, None, None, 'present', 'is1', 'absent'])),
          'outcome': draw(st.sampled_from(['ok', 'ok', 'ok', 'admission', 'admission', 'perm', 'temp', 'err'])),
          # (operators raise their own subclasses of kopf's error classes: they are admission/permanent/temporary errors just as well)
          'subclass': draw(st.booleans()),
@@ -87,7 +87,9 @@ def scenarios(draw):
     hint = draw(st.sampled_from([None, None, 'id', 'id', 'type']))
     sc = {'object': obj, 'handlers': handlers, 'operation': draw(st.sampled_from(OPERATIONS)),
           'subresource': draw(st.sampled_from([None, None, 'status', 'scale'])),
-          'hint_type': None, 'hint_id': None, 'dryrun': draw(st.booleans())}
+          'hint_type': None, 'hint_id': None, 'dryrun': draw(st.booleans()),
+          # what spec.f was before an UPDATE: the criteria of webhook handlers are about the reviewed object, not its past
+          'old_f': draw(st.sampled_from(['same', 'same', 'absent', 1, 2]))}
     if hint == 'id':
         h = draw(st.sampled_from(handlers))
         sc['hint_id'] = h['id'] + ('/spec.f' if h['field'] else '')    # the id the framework gives to field handlers
@@ -130,6 +132,8 @@ def ref_selected(h, sc):
     if h['field'] == 'present' and 'f' not in spec:
         return False
     if h['field'] == 'is1' and spec.get('f') != 1:
+        return False
+    if h['field'] == 'absent' and 'f' in spec:
         return False
     return True
 
@@ -224,6 +228,8 @@ def build(sc, log):
             kw['field'] = 'spec.f'
         elif h['field'] == 'is1':
             kw['field'], kw['value'] = 'spec.f', 1
+        elif h['field'] == 'absent':
+            kw['field'], kw['value'] = 'spec.f', kopf.ABSENT
         deco = kopf.on.validate if h['type'] == 'validating' else kopf.on.mutate
         deco('kopfexamples', **kw)(make(h))
     return reg
@@ -250,6 +256,12 @@ def run_case(sc):
                'name': 'x', 'namespace': 'ns', 'operation': sc['operation'], 'dryRun': sc['dryrun'],
                'object': copy.deepcopy(obj) if sc['operation'] != 'DELETE' else None,
                'oldObject': copy.deepcopy(obj) if sc['operation'] in ('UPDATE', 'DELETE') else None}
+    if sc['operation'] == 'UPDATE' and sc.get('old_f', 'same') != 'same':
+        if sc['old_f'] == 'absent':
+            payload['oldObject']['spec'].pop('f', None)
+        else:
+            payload['oldObject']['spec']['f'] = sc['old_f']
+        res.label('update-with-another-old-value-of-the-field')
     request = {'apiVersion': 'admission.k8s.io/v1', 'kind': 'AdmissionReview', 'request': payload}
     reason = {None: None, 'validating': causes.WebhookType.VALIDATING, 'mutating': causes.WebhookType.MUTATING}[sc['hint_type']]
 
